@@ -7,7 +7,8 @@ from contlib import ContCheck, all_classes
 class C04(ContCheck):
     id = 'C04'
     nontrivial_rule = ('a history is non-trivial when at least one insert succeeded; keys from a 4-letter alphabet so '
-                       'duplicates, minimum, maximum and absent probes are common; distinct = distinct case lines; further strata: own-object arguments (remove/find/contains of find(k)), second use of a copy (`fork`, `swap`), vectors of 31..257 (thorough ..1025) elements: distinct keys in ascending/descending/shuffled build order with a duplicate, a new neighbour key and probes at the first/second/quarter/middle/last positions and absent keys below/above, and vectors of n elements over n/4 keys')
+                       'duplicates, minimum, maximum and absent probes are common; distinct = distinct case lines; further strata: own-object arguments (remove/find/contains of find(k)), second use of a copy (`fork`, `swap`), vectors of 31..257 (thorough ..1025) elements: distinct keys in ascending/descending/shuffled build order with a duplicate, a new neighbour key and probes at the first/second/quarter/middle/last positions and absent keys below/above, and vectors of n elements over n/4 keys'
+                       '; depth stratum (implementation-side oracle, ASan and plain -O0 build, 8 MB stack): vectors of 10^5 / 4*10^5 (thorough 10^6) elements with every whole-chain scenario, and stack high-water marks at 1000 / 3000 elements')
     assumptions = ['elements are non-empty spif_str objects compared by spif_str_cmp, never NULL',
                    'results are compared by key; WHICH of several equal-key elements find/remove returns is left to the class '
                    '(identity is checked for membership by the multiset oracle)',
@@ -25,10 +26,13 @@ class C04(ContCheck):
               'objects with the probe\'s key. Pointer-level models (binary search, ordered scans) and refinement proofs are '
               'stage 2; memory safety is decided by the sanitizer run only.'
               " Stage 2 (Properties/C04_array.v, C04_linked_list.v, C04_dlinked_list.v): the pointer-level models of the three classes' vector methods refine the sorted multiset for every history: never a Fault, chain/array stays ascending, contents = inserted minus removed with identities, binary search (array) correct and in bounds, find/remove return stored elements; outputs agree with the ideal multiset up to the class's documented choice among equal keys (compared by key)."
-              " Strengthened after the round-2 seeds: sized vectors (31..33, 63..65, 127..129, 255..257; thorough ..1025) built with quiet steps, then duplicates / neighbours / probes at every boundary position (a search strategy that changes with the length is exercised on both sides of every power of two), many-equal-keys vectors, own-object arguments (remove/find/contains of the vector's own element) and `fork` (dup, then keep using the copy while the original is read back; the oracle keeps one multiset per container). Harness/driver-level compositions of the existing spec operations; op datatypes and theorems unchanged. Vectors above 300 elements are compared with the ideal multiset (and the oracle) only."),
+              " Strengthened after the round-2 seeds: sized vectors (31..33, 63..65, 127..129, 255..257; thorough ..1025) built with quiet steps, then duplicates / neighbours / probes at every boundary position (a search strategy that changes with the length is exercised on both sides of every power of two), many-equal-keys vectors, own-object arguments (remove/find/contains of the vector's own element) and `fork` (dup, then keep using the copy while the original is read back; the oracle keeps one multiset per container). Harness/driver-level compositions of the existing spec operations; op datatypes and theorems unchanged. Vectors above 300 elements are compared with the ideal multiset (and the oracle) only."
+              ' Strengthened after the round-4 seeds: a DEPTH stratum with an implementation-side oracle (the extracted models cannot run containers this large): vectors of 10^5 and 4*10^5 elements (thorough: also 10^6) for the two linked classes (descending resp. ascending inserts), 10^5 (thorough 2*10^5; under ASan 10^4 / 2*10^4) for class array, whose insert pays one memmove per step, built through the interface the O(1)-per-step way of the class where there is one, then every scenario the C code could answer by recursing along the chain or walking all of it (dup, to_array, a full iterator sweep, find/contains of the last, middle, first element and of absent keys above and between, an insert that lands at the very end, removal of the last element and its re-insertion, deletion), each checked in the harness against its own array of the N objects (count, identity at first/middle/last position, full order in sweeps and to_array); run under the ASan build AND a plain -O0 build without sanitizer, both under the default 8 MB stack, with a per-case watchdog: a crash, a timeout or a wrong result is a level-A failure whose replay is `iface class deep:N;scenario`. In addition the stack high-water mark of every scenario is measured at 1000 and 3000 elements (painted stack); growth of 8 bytes per element or more shows a recursion per element, is confirmed by a run at the predicted overflow size where such a container can be built, and is reported as a broken correspondence otherwise. The sizes that were run are recorded in the evidence (coverage.depth_stratum).'),
         design_ref='DESIGN.md section 7, C04')
 
     def oracle(self, case, iout):
+        if contlib.is_deep(case):
+            return ContCheck.oracle(self, case, iout)
         return contlib.vector_oracle(case, iout)
 
     def gen(self, tier, rng):
